@@ -268,6 +268,7 @@ type PathSample struct {
 	Reached []string            `json:"reached"`
 	Yields  []string            `json:"yields,omitempty"`
 	Native  string              `json:"native,omitempty"`
+	Weak    bool                `json:"uf_dependent,omitempty"`
 }
 
 type ObsVal struct {
@@ -309,7 +310,7 @@ func newMachine(l *Loaded, spec *RootSpec, solverBin string) *Machine {
 	for _, s := range spec.Summarize {
 		m.summarize[s] = true
 	}
-	m.ctx.solver = NewSolver(solverBin, "-in")
+	m.ctx.solver = NewSolver(solverBin, "-in", "-t:20000")
 	return m
 }
 
@@ -441,7 +442,7 @@ func (m *Machine) samplePath(s *State, spec *RootSpec, args []int) *PathSample {
 	if r != "sat" {
 		return nil
 	}
-	ps := &PathSample{Root: spec.Fn, Args: args, Pkg: spec.Pkg, Obs: map[string][]uint64{}, Yields: s.yields}
+	ps := &PathSample{Root: spec.Fn, Args: args, Pkg: spec.Pkg, Obs: map[string][]uint64{}, Yields: s.yields, Weak: s.uf}
 	for _, n := range s.nd {
 		ps.Model = append(ps.Model, NdVal{n.name, model[n.t]})
 	}
